@@ -123,6 +123,20 @@ def proof_step(ctx, prop_file):
     return names, out
 
 
+def coqchk_step(ctx, pid):
+    """thorough tier: re-check the compiled property file and everything it depends on with the independent checker"""
+    r = sh(['coqchk', '-o', '-silent', '-Q', 'theories', 'Gemato', 'Gemato.Properties.' + pid], cwd=COQ, timeout=3000)
+    out = r.stdout
+    ax = re.search(r'\* Axioms:\s*(.*?)\n\s*\n', out, re.S)
+    axioms = ax.group(1).strip() if ax else '?'
+    if r.returncode != 0:
+        ctx.broke('coqchk failed on Properties/' + pid + ': ' + out.strip().splitlines()[-1][:200])
+    elif axioms != '<none>':
+        ctx.broke('coqchk reports axioms for Properties/' + pid + ': ' + axioms[:300])
+    ctx.assumptions_printed.append('coqchk -o: Axioms: ' + axioms + '; type-in-type / unsafe fixpoints / assumed positivity: ' +
+                                   ('none' if out.count('<none>') >= 4 else 'see log'))
+
+
 FORBIDDEN = re.compile(r'\b(Admitted|admit|Axiom|Parameter|Conjecture|Abort All)\b|Unset Guard|bypass_check|'
                        r'Unset Positivity|Unset Universe|type-in-type|Admit Obligations')
 
